@@ -149,6 +149,13 @@ func comparePrereleaseIdentifiers(a, b string) int {
 
 // tryParseInt attempts to parse a string as an integer
 func tryParseInt(s string) (int, bool) {
+	// Only identifiers made of digits alone are numeric; "-5" is an
+	// alphanumeric identifier (a leading hyphen is not a sign).
+	for i := 0; i < len(s); i++ {
+		if s[i] < '0' || s[i] > '9' {
+			return 0, false
+		}
+	}
 	num, err := strconv.Atoi(s)
 	return num, err == nil
 }
